@@ -19,7 +19,11 @@ def cells(tier):
     out += grid(MON, [1, 2], ["A2", "A2|M3/2"], ["none", "cancel0", "cancel0+cancel1", "cgroupA", "call", "cancel0+flush"],
                 ["plain", "coro"], [["ret", "exc"], ["ret"]],
                 skip=lambda s, rn, dn, cn, o: (cn == "coro" and rn != "A2") or (len(o) == 1) != (q and rn == "A2|M3/2" and s == 2 and "+" in dn))
-    out += grid(MON, [2], ["A2", "M3/2"], ["cancel0", "cancelM0", "call", "call+flush"], ["partial", "slowccb", "slowecb"], [["ret"]])
+    out += grid(MON, [2], ["A2", "M3/2"], ["cancel0", "cancelM0", "call", "call+flush"], ["partial", "method", "slowccb", "slowecb"], [["ret"]])
+    sc = scen(pool(2, name="named"), [[A("A", 2)], [["cancel", rid("A", 0), {"msg": "m1"}]], [["cancel_group", "A", {"msg": "m2"}]]], outcomes=["ret", "exc"], ecb="plain", ccb="coro")
+    out.append(cell("s2 named pool A2 cancel0(msg) cgroupA(msg)", sc, MON))
+    sc = scen(pool(1, "SimpleTaskPool", name="simple", ecb="amethod", ccb="method"), [[S("S", 2)], [["cancel_all", {"msg": "bye"}]], [FLUSH]], outcomes=["ret"])
+    out.append(cell("simple named s1 S2 call(msg) flush method-cbs", sc, MON))
     out += grid(MON, ["inf"], ["A2|M3/2"], ["cancel0", "call", "gac"], ["plain"], [["ret"]] if q else [["ret", "exc"]])
     for size in [2, 3]:
         sc = scen(pool(size), [[A("A", 3)], [cancel(rid("A", 0))], [FLUSH]], outcomes=["ret", "exc"], ecb="plain", ccb="slow", slow_ids=[0])
